@@ -6,6 +6,8 @@
 //   transpose | graph | connected | levels <r> | ppn <start> | rcm | envelope
 //   choldec <tolhex> | choldec0 | solve <hex..> | lower a b <hex..> | diagonal a b <hex..> | upper a b <hex..>
 //   inverse | elements env|inv
+//   bdnew <blcks> <floats> | bdadd <dim> <width> <hex..> | bddump | bdreplicate | bdchol <tolhex>|default | bdupper
+//     (BlockDiagonal / UpperBlockDiagonal, sparse/sbdiagonal.h)
 //
 // A call that would be undefined behaviour in the C++ (no capacity left, transposing or
 // graphing a matrix that is not completely built) is answered `refused` without calling the library.
@@ -18,6 +20,7 @@
 #include <gnu_gama/sparse/smatrix.h>
 #include <gnu_gama/sparse/smatrix_graph.h>
 #include <gnu_gama/sparse/smatrix_ordering.h>
+#include <gnu_gama/sparse/sbdiagonal.h>
 #include <gnu_gama/adj/envelope.h>
 #include "proto.h"
 
@@ -26,6 +29,8 @@ typedef SparseMatrix<double, int>      SM;
 typedef SparseMatrixGraph<double, int> Graph;
 typedef ReverseCuthillMcKee<int>       RCM;
 typedef Envelope<double, int>          Env;
+typedef BlockDiagonal<double, int>     BD;
+typedef UpperBlockDiagonal<double, int> UBD;
 
 // verification probe (friend of Envelope when compiled with -DGAMA_VERIF): raw row pointers
 struct GamaVerifProbe {
@@ -45,8 +50,10 @@ struct Sess {
   std::unique_ptr<Graph> g;
   std::unique_ptr<RCM> o;
   std::unique_ptr<Env> E, Z;
+  std::unique_ptr<BD> bd;         // BlockDiagonal; the class checks no capacity, the harness tracks it
+  long bd_blcks = 0, bd_floats = 0;
   void stale() { Z.reset(); E.reset(); o.reset(); g.reset(); }   // derived objects of an older matrix
-  void reset() { stale(); A.reset(); floats = rowcap = started = 0; }
+  void reset() { stale(); A.reset(); floats = rowcap = started = 0; bd.reset(); bd_blcks = bd_floats = 0; }
   // preconditions that no library code checks (see lean/Gama/Model/Sparse.lean: built, nodupRows)
   bool built() const {
     if (started != A->rows()) return false;
@@ -94,6 +101,29 @@ static void dump_env(const char* tag, const Env& E)
   std::cout << " env";
   for (int i = 1; i <= E.dim(); i++)
     for (const double* p = E.begin(i); p != E.end(i); ++p) std::cout << " " << vp::hex(*p);
+  std::cout << "\n";
+}
+
+static bool nat_arg(const std::string& t, long& v)
+{
+  if (t.empty() || t.size() > 9) return false;
+  for (char c : t) if (c < '0' || c > '9') return false;
+  v = std::atol(t.c_str());
+  return true;
+}
+
+// `bd <blocks> <ncnt> <size> dim .. width .. begin <begin(1..blocks+1) - begin(1)> nonz <nonz[0..ncnt)>`
+static void dump_bd(const BD& b)
+{
+  std::cout << "bd " << b.blocks() << " " << b.nonzeroes() << " " << b.dim() << " dim";
+  for (int i = 1; i <= b.blocks(); i++) std::cout << " " << b.dim(i);
+  std::cout << " width";
+  for (int i = 1; i <= b.blocks(); i++) std::cout << " " << b.width(i);
+  std::cout << " begin";
+  const double* base = b.begin(1);
+  for (int i = 1; i <= b.blocks() + 1; i++) std::cout << " " << (b.begin(i) - base);
+  std::cout << " nonz";
+  for (int i = 0; i < b.nonzeroes(); i++) std::cout << " " << vp::hex(base[i]);
   std::cout << "\n";
 }
 
@@ -230,6 +260,47 @@ int main()
           const double* p = E.element(i, j);
           if (p) std::cout << " " << vp::hex(*p); else std::cout << " null";
         }
+      std::cout << "\n";
+    } else if (op == "bdnew" && t.size() == 3) {
+      long b, f;
+      if (!nat_arg(t[1], b) || !nat_arg(t[2], f)) { std::cout << "bad-op\n"; continue; }
+      s.bd.reset(new BD(int(b), int(f)));
+      s.bd_blcks = b; s.bd_floats = f;
+      std::cout << "ok\n";
+    } else if (op == "bdadd" && t.size() >= 3 && s.bd) {
+      long d, w;
+      std::vector<double> mem;
+      if (!nat_arg(t[1], d) || !nat_arg(t[2], w) || !vec_arg(t, 3, mem)) { std::cout << "bad-op\n"; continue; }
+      // add_block checks nothing: a table cell and N floats must be left, mem must hold N elements
+      const long N = d * (w + 1) - w * (w + 1) / 2;
+      const long used = s.bd->begin(s.bd->blocks() + 1) - s.bd->begin(1);
+      if (s.bd->blocks() < s.bd_blcks && N >= 0 && N <= (long)mem.size() && used + N <= s.bd_floats) {
+        mem.push_back(0);                       // keep data() valid for N == 0
+        s.bd->add_block(int(d), int(w), mem.data());
+        std::cout << "ok\n";
+      } else std::cout << "refused\n";
+    } else if (op == "bddump" && t.size() == 1 && s.bd) {
+      dump_bd(*s.bd);
+    } else if (op == "bdreplicate" && t.size() == 1 && s.bd) {
+      s.bd_blcks = s.bd->blocks(); s.bd_floats = s.bd->nonzeroes();
+      s.bd.reset(s.bd->replicate());
+      std::cout << "ok\n";
+    } else if (op == "bdchol" && t.size() == 2 && s.bd) {
+      int r;
+      if (t[1] == "default") r = s.bd->cholDec();       // default argument: tol = 1e-14
+      else {
+        std::vector<double> v;
+        if (!vec_arg(t, 1, v)) { std::cout << "bad-op\n"; continue; }
+        r = s.bd->cholDec(v[0]);
+      }
+      std::cout << "int " << r << "\n";
+    } else if (op == "bdupper" && t.size() == 1 && s.bd) {
+      UBD up(s.bd.get());
+      std::cout << "upper " << up.dim() << " rows";
+      if (up.dim() > 0) {
+        const double* base = s.bd->begin(1);
+        for (int i = 1; i <= up.dim(); i++) std::cout << " " << (up.begin(i) - base) << " " << (up.end(i) - base);
+      }
       std::cout << "\n";
     } else std::cout << "bad-op\n";
   }
